@@ -30,14 +30,17 @@ LCLASSES = {
 
 
 def run_impl(src: str, loader: dict[str, str], data: dict[str, Any], suppress: bool,
-             *, use_async: bool = False) -> tuple:
+             *, use_async: bool = False, trim: str = "+", shorthand: bool = False) -> tuple:
     from liquid2 import DictLoader, Environment
     from liquid2.exceptions import LiquidError
+    from liquid2.token import WhitespaceControl
 
     class Env(Environment):
         suppress_blank_control_flow_blocks = suppress
+        shorthand_indexes = shorthand
 
-    env = Env(loader=DictLoader(loader))
+    wc = {"+": WhitespaceControl.PLUS, "-": WhitespaceControl.MINUS, "~": WhitespaceControl.TILDE}[trim]
+    env = Env(loader=DictLoader(loader), default_trim=wc)
     try:
         t = env.from_string(src, name="main")
         if use_async:
@@ -60,7 +63,9 @@ def c_outcome(o: tuple) -> str:
     return "OFuel"   # a Python exception never agrees with the model (C02 decides those)
 
 
-def model_term(prog: dict[str, Any], data: dict[str, Any], suppress: bool, which: str = "render_template") -> str:
+def model_term(prog: dict[str, Any], data: dict[str, Any], suppress: bool, which: str = "render_template",
+               trim: str = "+") -> str:
+    prog = clf.model_ast(prog, trim)
     cfg = f"{{| suppress := {C.cbool(suppress)}; depth_limit := 30%Z |}}"
     return (f"outcome_of ({which} {cfg} {clf.c_loader(prog['loader'])} 400%nat "
             f"{clf.c_block(prog['main'])} [{clf.c_ns(data)}] {C.cstr('main')})")
@@ -92,38 +97,44 @@ def main(chk: C.Check, build: C.Build) -> None:
     nontrivial = set()
     evaluations = 0
     samples = []
+    cfgs: dict[tuple, int] = {}
     for pi in range(nprog):
         prog = clf.gen_program(r, depth=3 if not thorough else r.choice([3, 4]))
         suppress = r.random() < 0.7
+        trim = r.choice(["+", "+", "-", "~"])
+        shorthand = r.random() < 0.3
         layout_r = C.rng("c01-layout", pi)
-        src = clf.p_nodes(prog["main"], layout_r)
-        src_plain = clf.p_nodes(prog["main"], None)
-        loader_src = {k: clf.p_nodes(v, None) for k, v in prog["loader"].items()}
+        clf.SHORTHAND = shorthand
+        try:
+            src = clf.p_nodes(prog["main"], layout_r)
+            src_plain = clf.p_nodes(prog["main"], None)
+            loader_src = {k: clf.p_nodes(v, None) for k, v in prog["loader"].items()}
+        finally:
+            clf.SHORTHAND = False
+        cfgs[(trim, suppress, shorthand)] = cfgs.get((trim, suppress, shorthand), 0) + 1
         fs: set[str] = set()
         features(prog, fs)
         for _ in range(2):
             data = clf.gen_data(r)
-            o = run_impl(src, loader_src, data, suppress)
+            o = run_impl(src, loader_src, data, suppress, trim=trim, shorthand=shorthand)
             evaluations += 1
             dist["text" if o[0] == "T" else "error" if o[0] == "E" else "pyexc"] += 1
             # layout independence (direct oracle on the implementation)
-            o2 = run_impl(src_plain, loader_src, data, suppress)
+            o2 = run_impl(src_plain, loader_src, data, suppress, trim=trim, shorthand=shorthand)
             if o2 != o:
                 chk.finding("oracle:layout-dependence", "output depends on whitespace inside markup",
                             {"source_a": src, "source_b": src_plain, "loader": loader_src, "data": data,
-                             "suppress": suppress, "a": o, "b": o2})
-            if o[0] == "P":
-                # not a C01 matter by itself (C02), but the model cannot agree: report via correspondence
-                pass
+                             "suppress": suppress, "default_trim": trim, "shorthand_indexes": shorthand, "a": o, "b": o2})
             if o[0] == "T" and len(o[1]) > 0 and len(fs) >= 4:
                 nontrivial.add(src_plain + repr(sorted(data.items(), key=lambda kv: kv[0])))
-            mt = model_term(prog, data, suppress)
+            mt = model_term(prog, data, suppress, trim=trim)
             replay = {"source": src, "loader": loader_src, "data": data, "suppress": suppress,
-                      "implementation": o, "how": "Environment subclass with suppress_blank_control_flow_blocks=suppress, loader=DictLoader(loader): from_string(source).render(**data)"}
+                      "default_trim": trim, "shorthand_indexes": shorthand,
+                      "implementation": o, "how": "Environment subclass with suppress_blank_control_flow_blocks / shorthand_indexes, default_trim, loader=DictLoader(loader): from_string(source).render(**data)"}
             items.append({"case": f"(let o := {mt} in (outcome_agrees o {c_outcome(o)}, match o with OUnmodelled => true | _ => false end))",
                           "model": mt, "replay": replay})
             if len(samples) < 3 and o[0] == "T" and o[1].strip():
-                samples.append({"source": src, "data": data, "suppress": suppress, "output": o[1]})
+                samples.append({"source": src, "data": data, "suppress": suppress, "default_trim": trim, "output": o[1]})
         for f in fs:
             feats[f] = feats.get(f, 0) + 1
 
@@ -158,17 +169,19 @@ def main(chk: C.Check, build: C.Build) -> None:
                  "limit/offset/continue/reversed/else/break/continue, increment/decrement, cycle, raw, comment, with, "
                  "render (with/for/as/args), include (with/as/args), macro/call; paths, ranges, comparisons, and/or/not, "
                  "12 filters, ternaries) with up to 3 partials, nesting <= 3 (4 in thorough), printed with a random "
-                 "layout, each rendered with 2 generated data sets x suppress_blank_control_flow_blocks in {on,off}; "
+                 "layout, each rendered with 2 generated data sets x suppress_blank_control_flow_blocks in {on,off} x "
+                 "default_trim in {+,-,~} x shorthand_indexes in {on,off}; "
                  "non-trivial = distinct (program, data) whose render succeeded with non-empty output and whose program uses >= 4 "
                  "different constructs"),
         "samples": samples,
         "distribution": dist,
         "construct_frequency": dict(sorted(feats.items())),
+        "configurations": {repr(k): v for k, v in sorted(cfgs.items())},
         "exhaustive": False,
         "tier_proved": "Core interpreter (CLF) refines the reference semantics; value-semantics laws",
     })
     chk.assumptions += [
-        "default_trim is '+' and no whitespace-control markers in generated programs (trimming is C18's kernel)",
+        "no explicit whitespace-control markers in generated programs; for default_trim '-'/'~' the harness gives the model each content run already trimmed by an independent str.strip (marker placement and the parser's trim carry are C18's kernel)",
         "auto_escape off, default Undefined policy, no resource limits except context depth",
         "cases whose model outcome is OUnmodelled (filter coercions of numeric strings, dict stringification, "
         "ForLoop objects used as data, negative limit/offset) are counted in outside_model_cases and not compared",
